@@ -20,7 +20,7 @@ structure RtObs where
 
 /-- what the model says the harness observes for Marshal followed by Unmarshal into `r` -/
 def rtModel (v r : VLA) : RtObs :=
-  let e := marshal v
+  let e := marshalGo v
   { enc := e, dec := match e with | .ok b => some (unmarshal r b) | _ => none }
 
 /-- the inputs Marshal must reject -/
